@@ -34,7 +34,7 @@ def run_one(prop, idx, desc, tier, seed, workdir, timeout, mod):
     infile = os.path.join(workdir, f"in{idx}.json")
     outfile = os.path.join(workdir, f"out{idx}.json")
     with open(infile, "w") as fh:
-        json.dump({"desc": desc, "tier": tier, "seed": seed, "watchdog": timeout}, fh)
+        json.dump({"desc": desc, "tier": tier, "seed": seed, "watchdog": timeout, "index": idx}, fh)
     cmd = [PY, "-B"]
     if getattr(mod, "DEVMODE", False):
         cmd += ["-X", "dev", "-W", "error::RuntimeWarning"]
@@ -145,6 +145,9 @@ def decide(prop, mod, tier, seed, shards, results, wall, replaying=False):
                         extra[k].append(x)
             else:
                 extra[k] = v
+        if r.get("import_order"):
+            extra["import_orders"] = extra.get("import_orders") or {}
+            extra["import_orders"][r["import_order"]] = extra["import_orders"].get(r["import_order"], 0) + 1
         if r.get("cover") is not None:
             covered = True
             for f, lines in r["cover"].items():
